@@ -23,18 +23,20 @@ var durationType = reflect.TypeOf(time.Duration(0))
 // non-empty, otherwise it is also UTC but the caller's interpretation may
 // treat it as naive.
 func timestampToTime(v int64, ts *arrow.TimestampType) time.Time {
-	var d time.Duration
+	// Build the instant from (seconds, nanoseconds) rather than from a
+	// time.Duration: a Duration only spans about +/-292 years, so multiplying
+	// the raw value up to nanoseconds overflows for instants outside
+	// 1677-09-21..2262-04-11 although the wire type can carry them.
 	switch ts.Unit {
 	case arrow.Second:
-		d = time.Duration(v) * time.Second
+		return time.Unix(v, 0).UTC()
 	case arrow.Millisecond:
-		d = time.Duration(v) * time.Millisecond
+		return time.UnixMilli(v).UTC()
 	case arrow.Microsecond:
-		d = time.Duration(v) * time.Microsecond
-	case arrow.Nanosecond:
-		d = time.Duration(v)
+		return time.UnixMicro(v).UTC()
+	default:
+		return time.Unix(0, v).UTC()
 	}
-	return time.Unix(0, 0).UTC().Add(d)
 }
 
 func setTimeField(field reflect.Value, fieldType reflect.Type, isPtr bool, val time.Time) {
